@@ -343,3 +343,85 @@ def replay_h_foreign_reserialise(pat, llen, prof):
     from vf.pyxlift import idl_bytes
     x = build_value(pat, profile(prof), llen, full=FOREIGN_FULL)
     return idl_bytes.replay_foreign(IDL, S, x, _norm(S, x))
+
+
+# ------------------------------------------------------------------ dict_eq tells different structures apart ---
+def _leaves(d, out):
+    for k in sorted(x for x in d if isinstance(x, int)):
+        v = d[k]
+        if isinstance(v, dict):
+            _leaves(v, out)
+        elif isinstance(v, list):
+            for j, e in enumerate(v):
+                if isinstance(e, dict):
+                    _leaves(e, out)
+                else:
+                    out.append((v, j))
+        elif v is not None and not isinstance(v, bool):
+            out.append((d, k))
+    return out
+
+
+def _other(v):
+    # a different value of the same kind and the same length
+    if isinstance(v, str):
+        return v[:-1] + ("e" if v[-1] != "e" else "f")
+    if isinstance(v, bytes):
+        return v[:-1] + (b"e" if v[-1:] != b"e" else b"f")
+    if isinstance(v, float):
+        return v + 1.0
+    return v + 1
+
+
+def _pick_w(v):
+    for k in range(12):
+        if v == k:
+            return k
+    raise ValueError(v)
+
+
+def h_dict_eq_distinguishes(pat: int, llen: int, prof: int, which: int, as_bytes: bool) -> bool:
+    """
+    pre: 0 <= pat < len(PATS) and 0 <= llen <= 2 and (HAS_LIST or llen == 1) and prof == 0 and 0 <= which < 12
+    post: __return__
+    """
+    # ThriftObject.__eq__ (row groups are located in their list with it): two structures that differ in ONE leaf - an
+    # integer, a text of the same length, bytes - are different; a str compares equal to its UTF-8 bytes (parsed
+    # metadata holds bytes where the writer assigns str)
+    import copy
+    which = _pick_w(which)
+    x = build_value(pat, profile(prof), llen)
+    a = to_fp(S, x)
+    b = copy.deepcopy(a)
+    leaves = _leaves(b, [])
+    if which >= len(leaves):
+        return True
+    cont, key = leaves[which]
+    old = cont[key]
+    if not NS["dict_eq"](a, b) or not NS["dict_eq"](b, a):
+        return False
+    if as_bytes and isinstance(old, str):
+        if isinstance(cont, dict):
+            # (a text FIELD; the elements of a list of texts are compared as they are)
+            cont[key] = old.encode()
+            if not NS["dict_eq"](a, b):
+                return False
+        cont[key] = _other(old).encode()
+        return not NS["dict_eq"](a, b)
+    cont[key] = _other(old)
+    return not NS["dict_eq"](a, b) and not NS["dict_eq"](b, a)
+
+
+def replay_h_dict_eq_distinguishes(pat, llen, prof, which, as_bytes):
+    import copy
+    from fastparquet.cencoding import ThriftObject
+    x = build_value(pat, profile(prof), llen)
+    a = to_fp(S, x)
+    b = copy.deepcopy(a)
+    leaves = _leaves(b, [])
+    cont, key = leaves[which]
+    old = cont[key]
+    cont[key] = _other(old).encode() if (as_bytes and isinstance(old, str)) else _other(old)
+    if ThriftObject(S, a) == ThriftObject(S, b):
+        return True, "%s: two objects that differ in one field (%r vs %r) compare equal" % (S, old, cont[key])
+    return False, "told apart"
